@@ -42,11 +42,23 @@ fn generate(seed: u64, n: usize, csv: &str, out: &mut impl Write) {
     // the broadcasting operators (layout-specific fast paths for contiguous operands) get extra weight
     let heavy: Vec<String> = targets
         .iter()
-        .filter(|k| ["Add", "Sub", "Mul", "Div", "Pow", "Where", "Expand", "MatMul", "Conv", "Concat", "Softmax", "ReduceSum", "fused:AddSoftmax"].contains(&k.as_str()))
+        .filter(|k| ["Add", "Sub", "Mul", "Div", "Pow", "Where", "Expand", "MatMul", "Conv", "Concat", "Softmax", "ReduceSum", "fused:AddSoftmax", "Gather", "GatherElements", "GatherND", "ScatterElements", "ScatterND"].contains(&k.as_str()))
+        .cloned()
+        .collect();
+    // the index-driven operators: every input (data, indices, updates) is varied independently
+    let index_ops: Vec<String> = targets
+        .iter()
+        .filter(|k| ["Gather", "GatherElements", "GatherND", "ScatterElements", "ScatterND"].contains(&k.as_str()))
         .cloned()
         .collect();
     for i in 0..n {
-        let k = if i % 4 == 0 && !heavy.is_empty() { rng.pick(&heavy) } else { rng.pick(&targets) };
+        let k = if i % 4 == 0 && !heavy.is_empty() {
+            rng.pick(&heavy)
+        } else if i % 8 == 1 && !index_ops.is_empty() {
+            rng.pick(&index_ops)
+        } else {
+            rng.pick(&targets)
+        };
         writeln!(out, "L|{}|{}", k, rng.next() >> 16).unwrap();
     }
 }
@@ -86,8 +98,9 @@ fn exec_layout(key: &str, seed: u64) -> (String, String) {
             alts.push((kind.name().to_string(), run_views(&case.op, &views(&hs), case.n_out)));
         }
     }
-    // mixed assignments
-    for _ in 0..2 {
+    // mixed assignments: every input varied independently (more of them for the index-driven operators)
+    let n_mixed = if key.contains("Gather") || key.contains("Scatter") { 5 } else { 2 };
+    for _ in 0..n_mixed {
         let mut names = vec![];
         let hs: Vec<Option<Holder>> = case
             .inputs
